@@ -285,7 +285,16 @@ impl<'a> MeshNearCheck<'a> {
     }
 
     fn near_check(&mut self, vertex_index: u32, face_normal: Option<UnitVec3>) -> bool {
-        if let Some(&checked) = self.checked.get(&vertex_index) {
+        // The angle test compares against the normal of the face being evaluated, so the per-vertex
+        // result can only be memoised when no angle tolerance is set
+        let cacheable = self.angle_tol.is_none();
+        let cached = if cacheable {
+            self.checked.get(&vertex_index).copied()
+        } else {
+            None
+        };
+
+        if let Some(checked) = cached {
             checked
         } else {
             let p = self.this_mesh.vertices()[vertex_index as usize];
@@ -324,7 +333,11 @@ impl<'a> MeshNearCheck<'a> {
                 false
             };
 
-            self.store_and_return(vertex_index, is_ok)
+            if cacheable {
+                self.store_and_return(vertex_index, is_ok)
+            } else {
+                is_ok
+            }
         }
     }
 }
